@@ -106,6 +106,22 @@ class C15(Check):
             data, man = genzip.build([Entry(b"e", c, password=b"right")])
             cases.append(("entry %s 0 1 %s 16" % (hexs(data), hexs(b"wrong")), dict(k="read", expect="reject", content=c.hex())))
             cases.append(("entry %s 0 1 %s 16" % (hexs(data), hexs(b"right")), dict(k="read", expect="content", content=c.hex())))
+        # ---- wrong passwords that PASS the one-byte header check (found by search with the independent PKWARE cipher): the
+        #      read must then fail on the CRC (or in the decoder), never complete with other bytes
+        for c, m in ((b"known plaintext " * 8, 0), (b"compressible " * 60, 8), (b"q", 0)):
+            data, man = genzip.build([Entry(b"e", c, method=m, password=b"right")])
+            e0 = man["entries"][0]
+            hdr = data[e0["data_start"]:e0["data_start"] + 12]
+            hb = (e0["crc"] >> 24) & 0xff
+            found = 0
+            for i in range(20000):
+                pwi = b"wrong-%d" % i
+                if genzip.ZipCrypto(pwi).decrypt(hdr)[11] == hb:
+                    cases.append(("entry %s 0 1 %s %d" % (hexs(data), hexs(pwi), r.choice([1, 16, 4096])),
+                                  dict(k="read", expect="reject", content=c.hex(), passes_header=True)))
+                    found += 1
+                    if found == 4:
+                        break
         # ---- Info-ZIP producer
         d = os.path.join(CACHE, "c15_infozip")
         os.makedirs(d, exist_ok=True)
